@@ -560,31 +560,44 @@ func init() {
 	reg("os.Getenv", func(fr *frame, fn *ssa.Function, args []value) value { return "" })
 	reg("syscall.Getenv", func(fr *frame, fn *ssa.Function, args []value) value { return tuple{"", fr.in.ts.False} })
 	reg("(*sync.Mutex).TryLock", func(fr *frame, fn *ssa.Function, args []value) value { return fr.in.ts.True })
-	// sync.Pool: Get hands back the item most recently Put by the same goroutine, if any (the
-	// behaviour of the real per-P cache on one P; a legal behaviour of any Pool), else New().
-	poolKey := func(fr *frame, p *value) string {
-		g := 0
-		if fr.in.sch.on && fr.in.sch.cur != nil {
-			g = fr.in.sch.cur.id
+	// sync.Pool: Get hands back the item most recently Put, if any (the behaviour of the real
+	// per-P cache on one P; a legal behaviour of any Pool), else New(). Put / Get synchronise
+	// (the item's hand-over is a happens-before edge, as in the real Pool).
+	type poolState struct {
+		items []value
+		vc    vclock
+	}
+	poolOf := func(fr *frame, p *value) *poolState {
+		key := fmt.Sprintf("pool:%p", p)
+		ps, _ := fr.in.ghost[key].(*poolState)
+		if ps == nil {
+			ps = &poolState{}
+			fr.in.ghost[key] = ps
 		}
-		return fmt.Sprintf("pool:%p:%d", p, g)
+		return ps
 	}
 	reg("(*sync.Pool).Put", func(fr *frame, fn *ssa.Function, args []value) value {
 		p := args[0].(*value)
 		if isNilValue(args[1]) {
 			return nil
 		}
-		key := poolKey(fr, p)
-		items, _ := fr.in.ghost[key].([]value)
-		fr.in.ghost[key] = append(items[:len(items):len(items)], args[1])
+		ps := poolOf(fr, p)
+		ps.items = append(ps.items, args[1])
+		if fr.in.sch.on && fr.in.sch.cur != nil {
+			fr.in.hbRelease(fr.in.sch.cur, &ps.vc)
+		}
 		return nil
 	})
 	reg("(*sync.Pool).Get", func(fr *frame, fn *ssa.Function, args []value) value {
 		p := args[0].(*value)
-		key := poolKey(fr, p)
-		if items, _ := fr.in.ghost[key].([]value); len(items) > 0 {
-			fr.in.ghost[key] = items[:len(items)-1]
-			return items[len(items)-1]
+		ps := poolOf(fr, p)
+		if n := len(ps.items); n > 0 {
+			it := ps.items[n-1]
+			ps.items = ps.items[:n-1]
+			if fr.in.sch.on && fr.in.sch.cur != nil {
+				fr.in.hbAcquire(fr.in.sch.cur, &ps.vc)
+			}
+			return it
 		}
 		st := (*p).(structure)
 		// field "New" is the last field of sync.Pool
